@@ -21,6 +21,7 @@ import (
 	"fmt"
 	"strconv"
 	"strings"
+	"time"
 
 	"seata.apache.org/seata-go/pkg/datasource/sql/datasource"
 	"seata.apache.org/seata-go/pkg/datasource/sql/types"
@@ -76,6 +77,9 @@ func primaryKeyText(v interface{}) string {
 		return strconv.FormatFloat(x, 'f', -1, 64)
 	case float32:
 		return strconv.FormatFloat(float64(x), 'f', -1, 32)
+	case time.Time:
+		// the instant, not the way its location is written ("+0800 CST" from the driver, "+0800 +0800" from an image)
+		return x.UTC().Format(time.RFC3339Nano)
 	}
 	return fmt.Sprintf("%v", v)
 }
